@@ -38,7 +38,7 @@ REACH = {
               "omitted_default_cases": 50, "recursive_cases": 20, "by_name_cases": 50},
     "thorough": {"cases_checked": 100000, "back_to_back_streams": 5000},
 }
-SOPTS = dict(bytes_defaults=0.15, null_ns_inside=0.05, union_default_any=True)
+SOPTS = dict(bytes_defaults=0.5, null_ns_inside=0.05, union_default_any=True)
 KNOWN_BYTES_DEFAULT = "bytes-default-used-verbatim"
 DOPTS = dict(omit_nullable=0.1, hints=0.12, extras=0.05)
 
